@@ -66,5 +66,6 @@ try:
     res["detected_by"] = det
 finally:
     sh("git -C /repo checkout -- .", check=True)
+    sh("git -C /verif checkout -- evidence")  # evidence is only ever committed from the unchanged tree
 print(json.dumps(res["detected_by"], indent=1))
 json.dump(res, open(os.path.join(sd, "eval.json"), "w"), indent=1)
